@@ -515,6 +515,12 @@ func (p *MinQueriesPlanner) extractSelection(ctx *PlanningContext, config *extra
 			copy(newWrapper, config.wrapper)
 			newWrapper = append(newWrapper, selection)
 
+			// an inline fragment without a type condition applies to the enclosing type
+			typeCondition := selection.TypeCondition
+			if typeCondition == "" {
+				typeCondition = config.parentType
+			}
+
 			// add any possible selections provided by selections
 			subSelection, err := p.extractSelection(ctx, &extractSelectionConfig{
 				stepCh:         config.stepCh,
@@ -525,7 +531,7 @@ func (p *MinQueriesPlanner) extractSelection(ctx *PlanningContext, config *extra
 				plan:           config.plan,
 				insertionPoint: config.insertionPoint,
 
-				parentType: selection.TypeCondition,
+				parentType: typeCondition,
 				selection:  selection.SelectionSet,
 				wrapper:    newWrapper,
 			})
@@ -739,12 +745,18 @@ func (p *MinQueriesPlanner) groupSelectionSet(ctx *PlanningContext, config *extr
 
 			fragmentLocations := map[string]ast.SelectionSet{}
 
+			// an inline fragment without a type condition applies to the enclosing type
+			typeCondition := selection.TypeCondition
+			if typeCondition == "" {
+				typeCondition = config.parentType
+			}
+
 			// each field in the fragment should be bundled with whats around it (still wrapped in fragment)
 			for _, fragmentSelection := range selection.SelectionSet {
 				switch fragmentSelection := fragmentSelection.(type) {
 				case *ast.Field:
 					// look up the location of the field
-					fieldLocations, err := config.locations.URLFor(selection.TypeCondition, fragmentSelection.Name)
+					fieldLocations, err := config.locations.URLFor(typeCondition, fragmentSelection.Name)
 					if err != nil {
 						return nil, nil, err
 					}
